@@ -19,8 +19,8 @@ impl Project {
         Project {
             files: vec![("entry.ts".to_string(), text.to_string())],
             entry: "entry.ts".to_string(),
-            string_formats: crate::den::STRING_FORMATS.iter().map(|s| s.to_string()).collect(),
-            number_formats: crate::den::NUMBER_FORMATS.iter().map(|s| s.to_string()).collect(),
+            string_formats: crate::den::STRING_FORMATS.iter().map(|s| s.to_string()).chain([crate::den::SHARED_FORMAT.to_string()]).collect(),
+            number_formats: crate::den::NUMBER_FORMATS.iter().map(|s| s.to_string()).chain([crate::den::SHARED_FORMAT.to_string()]).collect(),
         }
     }
 }
